@@ -96,7 +96,8 @@ def _props_of(v):
             s |= {'C03', 'C05', 'C17'}
         return s or {'C02', 'C05'}
     if r == 'ESC-user':
-        return {'C04', 'C17'}
+        # (a dead slot left below len is destroyed a second time by the next clear / drop: C02 as well)
+        return {'C04', 'C17'} | ({'C02'} if 'HOLE' in what else set())
     if r == 'ESC-own':
         return {'C05', 'C03', 'C17'}
     if r == 'STRUCTINV':
